@@ -87,12 +87,16 @@ func (s *Segmenter) MakeInitSegments() ([]*mp4.InitSegment, error) {
 				outStsd.AddChild(inStsd.AC3)
 			} else if inStsd.EC3 != nil {
 				outStsd.AddChild(inStsd.EC3)
+			} else {
+				return nil, fmt.Errorf("no supported audio sample entry (mp4a, ac-3, ec-3) in stsd")
 			}
 		case "video":
 			if inStsd.AvcX != nil {
 				outStsd.AddChild(inStsd.AvcX)
 			} else if inStsd.HvcX != nil {
 				outStsd.AddChild(inStsd.HvcX)
+			} else {
+				return nil, fmt.Errorf("no supported video sample entry (avc1, avc3, hvc1, hev1) in stsd")
 			}
 		default:
 			return nil, fmt.Errorf("unsupported tracktype: %s", tr.trackType)
@@ -121,12 +125,16 @@ func (s *Segmenter) MakeMuxedInitSegment() (*mp4.InitSegment, error) {
 				outStsd.AddChild(inStsd.AC3)
 			} else if inStsd.EC3 != nil {
 				outStsd.AddChild(inStsd.EC3)
+			} else {
+				return nil, fmt.Errorf("no supported audio sample entry (mp4a, ac-3, ec-3) in stsd")
 			}
 		case "video":
 			if inStsd.AvcX != nil {
 				outStsd.AddChild(inStsd.AvcX)
 			} else if inStsd.HvcX != nil {
 				outStsd.AddChild(inStsd.HvcX)
+			} else {
+				return nil, fmt.Errorf("no supported video sample entry (avc1, avc3, hvc1, hev1) in stsd")
 			}
 		default:
 			return nil, fmt.Errorf("unsupported tracktype: %s", tr.trackType)
